@@ -796,3 +796,150 @@ Proof.
     destruct (Nat.eqb (List.length g) 0); [reflexivity|].
     destruct (Z.ltb i 0) eqn:L; [reflexivity | apply Z.ltb_ge in L; lia].
 Qed.
+
+(* ------------------------------------------------------------------------------------------ *)
+(* the pool built from tagged links has one node per usable occurrence                         *)
+(* ------------------------------------------------------------------------------------------ *)
+Local Open Scope list_scope.
+Section PoolProofs.
+  Variable link_name : string -> option string.
+
+  Definition proj_tn (n : node) : string * string := (n_tag n, n_name n).
+
+  Definition pairs_of (tag : string) (links : list string) : list (string * string) :=
+    flat_map (fun l => match link_name l with Some nm => [(tag, nm)] | None => [] end) links.
+
+  Definition spec_pairs (m : tagged) : list (string * string) :=
+    flat_map (fun e => pairs_of (fst e) (snd e)) m.
+
+  Lemma nodes_loop_proj : forall tag links acc,
+      map proj_tn (nodes_loop link_name tag links acc) = map proj_tn acc ++ pairs_of tag links.
+  Proof.
+    intros tag. induction links as [|l rest IH]; intros acc; cbn.
+    - rewrite app_nil_r. reflexivity.
+    - destruct (link_name l) as [nm|]; cbn.
+      + rewrite IH, map_app, <- app_assoc. reflexivity.
+      + apply IH.
+  Qed.
+
+  Lemma tags_loop_proj : forall m acc,
+      map proj_tn (tags_loop link_name m acc) = map proj_tn acc ++ spec_pairs m.
+  Proof.
+    induction m as [|[tag links] rest IH]; intros acc; cbn.
+    - rewrite app_nil_r. reflexivity.
+    - rewrite IH, nodes_loop_proj, <- app_assoc. reflexivity.
+  Qed.
+
+  Lemma new_dialer_set_proj : forall m, map proj_tn (new_dialer_set link_name m) = spec_pairs m.
+  Proof. intros m. unfold new_dialer_set. rewrite tags_loop_proj. reflexivity. Qed.
+
+  Lemma pairs_of_length : forall tag links,
+      List.length (pairs_of tag links)
+      = List.length (filter (usable link_name) (map (fun l => (tag, l)) links)).
+  Proof.
+    intros tag. induction links as [|l rest IH]; [reflexivity|].
+    unfold pairs_of in *. cbn [flat_map map filter]. unfold usable at 1. cbn [snd].
+    destruct (link_name l); cbn [app List.length]; rewrite IH; reflexivity.
+  Qed.
+
+  Lemma spec_pairs_length : forall m,
+      List.length (spec_pairs m) = List.length (filter (usable link_name) (occurrences m)).
+  Proof.
+    induction m as [|e rest IH]; [reflexivity|].
+    unfold spec_pairs, occurrences in *. cbn [flat_map].
+    rewrite filter_app, !app_length, IH. f_equal. apply pairs_of_length.
+  Qed.
+
+  Lemma names_by_tag_proj : forall t pool,
+      map n_name (filter (fun n => n_tag n =? t) pool)
+      = map snd (filter (fun p => fst p =? t) (map proj_tn pool)).
+  Proof.
+    intros t. induction pool as [|n pool IH]; cbn; [reflexivity|].
+    destruct (n_tag n =? t); cbn; rewrite IH; reflexivity.
+  Qed.
+
+  Lemma pairs_of_by_tag : forall t tag links,
+      map snd (filter (fun p => fst p =? t) (pairs_of tag links))
+      = if tag =? t then names_of link_name links else [].
+  Proof.
+    intros t tag. induction links as [|l rest IH].
+    - cbn. destruct (tag =? t); reflexivity.
+    - unfold pairs_of, names_of in *. cbn [flat_map].
+      destruct (link_name l) as [nm|]; [|exact IH].
+      cbn [app filter fst]. destruct (tag =? t) eqn:E.
+      + cbn [map snd]. rewrite IH. reflexivity.
+      + exact IH.
+  Qed.
+
+  Lemma spec_pairs_by_tag : forall t m,
+      map snd (filter (fun p => fst p =? t) (spec_pairs m)) = names_under link_name t m.
+  Proof.
+    intros t. induction m as [|e rest IH]; [reflexivity|].
+    unfold spec_pairs, names_under in *. cbn [flat_map].
+    rewrite filter_app, map_app, IH, pairs_of_by_tag. reflexivity.
+  Qed.
+
+  Lemma pool_faithful_of_proj : forall m pool,
+      map proj_tn pool = spec_pairs m -> pool_faithful link_name m pool.
+  Proof.
+    intros m pool H. split.
+    - rewrite <- spec_pairs_length, <- H, map_length. reflexivity.
+    - intros t. rewrite names_by_tag_proj, H. apply spec_pairs_by_tag.
+  Qed.
+
+  Lemma pool_one_per_occurrence_proof : forall m,
+      pool_faithful link_name m (new_dialer_set link_name m).
+  Proof. intros m. apply pool_faithful_of_proj. apply new_dialer_set_proj. Qed.
+End PoolProofs.
+
+Lemma no_filters_all_occurrences_proof : forall link_name re_ok re_match dur m,
+    exists g, filter_and_annotate re_ok re_match dur (new_dialer_set link_name m) [] [] = Ok g
+              /\ map snd g = map (fun _ => 0%Z) g
+              /\ pool_faithful link_name m (map fst g).
+Proof.
+  intros link_name re_ok re_match dur m. eexists. split; [reflexivity|].
+  rewrite !map_map. cbn [fst snd]. rewrite map_id. split; [reflexivity|].
+  apply pool_one_per_occurrence_proof.
+Qed.
+
+Lemma members_exact_occurrences_proof : forall link_name re_ok re_match dur m lines annos,
+    def_valid re_ok dur lines annos = true ->
+    forall rp rf ra,
+      pool_faithful link_name m (new_dialer_set link_name m)
+      /\ filter_and_annotate re_ok re_match dur (new_dialer_set link_name m) lines annos
+         = Ok (spec_group re_ok re_match dur rp rf ra (new_dialer_set link_name m) lines annos).
+Proof.
+  intros. split; [apply pool_one_per_occurrence_proof | apply members_exact_proof; assumption].
+Qed.
+
+(* the counter-model: building each link only once (keyed by the link string alone) *)
+Fixpoint dedup_nodes_loop (link_name : string -> option string) (tag : string) (nodes : list string)
+         (st : list string * list node) : list string * list node :=
+  match nodes with
+  | [] => st
+  | link :: rest =>
+      if existsb (String.eqb link) (fst st) then dedup_nodes_loop link_name tag rest st
+      else match link_name link with
+           | None => dedup_nodes_loop link_name tag rest (link :: fst st, snd st)
+           | Some nm => dedup_nodes_loop link_name tag rest
+                          (link :: fst st, snd st ++ [mkNode (N.of_nat (List.length (snd st))) nm tag])
+           end
+  end.
+
+Fixpoint dedup_tags_loop (link_name : string -> option string) (m : tagged)
+         (st : list string * list node) : list string * list node :=
+  match m with
+  | [] => st
+  | (tag, nodes) :: rest => dedup_tags_loop link_name rest (dedup_nodes_loop link_name tag nodes st)
+  end.
+
+Definition new_dialer_set_dedup (link_name : string -> option string) (m : tagged) : list node :=
+  snd (dedup_tags_loop link_name m ([], [])).
+
+Lemma dedup_by_link_refuted_proof :
+  ~ (forall link_name m, pool_faithful link_name m (new_dialer_set_dedup link_name m)).
+Proof.
+  intros H.
+  destruct (H (fun l => Some l) [("alpha", ["a"; "shared"]); ("beta", ["shared"; "b"])]) as [L _].
+  vm_compute in L. discriminate.
+Qed.
